@@ -3,6 +3,7 @@ package c05
 import (
 	"bytes"
 	"crypto/sha256"
+	"crypto/x509"
 	"crypto/x509/pkix"
 	"encoding/asn1"
 	"fmt"
@@ -14,7 +15,10 @@ import (
 
 	"verifharness/pki"
 	"verifharness/ref"
+	"verifharness/vh"
 )
+
+func vhThorough() bool { return vh.Thorough() }
 
 // fields are the signed fields of one object (whichever apply to its kind).
 type fields struct {
@@ -31,6 +35,11 @@ type fields struct {
 	data    []byte // Blob, LogList
 	// how the same entry is presented as a certificate chain (ctutil); nil when the entry is synthetic
 	chain []*pki.Node
+	// the certificates of the chain's shape (issuance x extension order), for mutations that need a neighbour chain
+	sm *shapeMat
+	// clause Unencodable: the named field holds a value outside the domain of its field (extensions beyond 65535
+	// bytes, an empty or over-long certificate / TBSCertificate, an undefined entry type): no signed bytes exist
+	unser string
 }
 
 func (f *fields) clone() *fields {
@@ -43,6 +52,10 @@ func (f *fields) clone() *fields {
 }
 
 func (f *fields) isSCT() bool { return f.kind == "SCTx509" || f.kind == "SCTprecert" }
+
+// which arms of the entry the caller's log entry carries (an empty certificate is a present arm with no bytes)
+func (f *fields) hasCertArm() bool { return len(f.cert) > 0 || f.unser == "cert" }
+func (f *fields) hasTBSArm() bool  { return len(f.tbs) > 0 || f.unser == "tbs" }
 
 func (f *fields) entry() ref.Entry {
 	if f.etype == ref.X509Entry {
@@ -60,7 +73,23 @@ func (f *fields) msg() ([]byte, bool) {
 	case "STH":
 		return ref.STHSignatureInput(f.ts, f.size, f.root[:]), f.version == 0
 	}
-	return ref.SCTSignatureInput(f.ts, f.entry(), f.ext), f.version == 0 && (f.etype == ref.X509Entry || f.etype == ref.PrecertEntry)
+	return ref.SCTSignatureInput(f.ts, f.entry(), f.ext), f.version == 0 && f.unser == "" && (f.etype == ref.X509Entry || f.etype == ref.PrecertEntry)
+}
+
+// residue is what an RFC 5246 encoder has emitted of the CertificateTimestamp (RFC 6962 3.2: version, signature
+// type, timestamp, entry type, signed entry, extensions - in this order) when it meets the unencodable field.
+func (f *fields) residue() []byte {
+	head := ref.Cat(ref.U(0, 1), ref.U(0, 1), ref.U(f.ts, 8))
+	switch f.unser {
+	case "entrytype":
+		return head
+	case "cert", "tbs":
+		return ref.Cat(head, ref.U(uint64(f.etype), 2))
+	case "extensions":
+		full := ref.SCTSignatureInput(f.ts, f.entry(), nil)
+		return full[:len(full)-2]
+	}
+	return nil
 }
 
 // presented is what the verifier is handed.
@@ -100,6 +129,13 @@ func (p *presented) sct() ct.SignedCertificateTimestamp {
 	}
 }
 
+// sctDigest identifies the presented SCT (also one that has no encoding).
+func (p *presented) sctDigest() [32]byte {
+	id := p.logID()
+	return sha256.Sum256(ref.Cat(ref.U(uint64(p.f.version), 1), id[:], ref.U(p.f.ts, 8), ref.U(uint64(len(p.f.ext)), 8), p.f.ext,
+		[]byte{byte(p.hash), byte(p.sig)}, p.val))
+}
+
 // sctBytes is the TLS encoding of the presented SCT, written independently (RFC 6962 3.2).
 func (p *presented) sctBytes() []byte {
 	id := p.logID()
@@ -112,10 +148,10 @@ func (p *presented) leaf() ct.MerkleTreeLeaf {
 	if p.asSigned != nil {
 		te.Timestamp, te.Extensions = p.asSigned.ts, ct.CTExtensions(p.asSigned.ext)
 	}
-	if len(p.f.cert) > 0 {
+	if p.f.hasCertArm() {
 		te.X509Entry = &ct.ASN1Cert{Data: p.f.cert}
 	}
-	if len(p.f.tbs) > 0 {
+	if p.f.hasTBSArm() {
 		te.PrecertEntry = &ct.PreCert{IssuerKeyHash: p.f.ikh, TBSCertificate: p.f.tbs}
 	}
 	return ct.MerkleTreeLeaf{Version: ct.V1, LeafType: ct.TimestampedEntryLeafType, TimestampedEntry: te}
@@ -132,18 +168,35 @@ func (p *presented) sth() ct.SignedTreeHead {
 	}
 }
 
+// shapeMat is the certificate material of one shape of precertificate chain (SigVerify.tla, EntryFromChain):
+// who issued the precertificate and where its poison extension sits.
+type shapeMat struct {
+	iss, order string
+	viaPre     bool        // tail[0] is a precertificate signing certificate
+	tail       []*pki.Node // what follows the precertificate in the chain, up to the final issuer
+	altTail    []*pki.Node // the same with the final issuer replaced by its twin (same name, another key)
+	// [0] the object; [1] another precertificate altogether; [2] the same as [0] (serial, key, subject, validity) but
+	// for the DNS name: only an extension BEHIND the authority key identifier differs
+	pre [3]*pki.Node
+}
+
 // world is the certificate material of one worker (std crypto/x509 only) and the repository's view of it.
 type world struct {
 	root, issuer, altIssuer *pki.Node
 	leaf                    [2]*pki.Node
-	pre                     [2]*pki.Node
+	preIssuer               map[string]*pki.Node
+	shapes                  map[string]*shapeMat
 	parsed                  map[*pki.Node]*ctx509.Certificate
 	serial                  int64
 	rng                     *mrand.Rand
+	id                      int
+	// history: what the step before, refused part-way, would have left behind (nil: nothing was refused)
+	residue []byte
 }
 
 func newWorld(rng *mrand.Rand, id int) *world {
-	w := &world{parsed: map[*pki.Node]*ctx509.Certificate{}, rng: rng, serial: int64(id+1) << 32}
+	w := &world{parsed: map[*pki.Node]*ctx509.Certificate{}, rng: rng, serial: int64(id+1) << 32, id: id,
+		preIssuer: map[string]*pki.Node{}, shapes: map[string]*shapeMat{}}
 	w.root = pki.NewRoot(pki.Opts{CN: "c05 root"})
 	w.issuer = w.root.Issue(pki.Opts{CN: "c05 issuer", IsCA: true})
 	subj := w.issuer.Cert.Subject
@@ -151,9 +204,56 @@ func newWorld(rng *mrand.Rand, id int) *world {
 	w.altIssuer = w.root.Issue(pki.Opts{CN: "c05 issuer", IsCA: true, Subject: &subj})
 	for i := range w.leaf {
 		w.leaf[i] = w.issuer.Issue(pki.Opts{CN: fmt.Sprintf("leaf%d.example", i), DNS: []string{fmt.Sprintf("leaf%d.example", i)}})
-		w.pre[i] = w.issuer.Issue(pki.Opts{CN: fmt.Sprintf("pre%d.example", i), Poison: "ok"})
 	}
 	return w
+}
+
+var stdShape = Shape{Iss: "direct", Order: "std"}
+
+// shape builds (once per world) the chain material of a shape.
+func (w *world) shape(sh Shape) *shapeMat {
+	if sh.Iss == "" {
+		sh = stdShape
+	}
+	key := sh.Iss + "/" + sh.Order
+	if m := w.shapes[key]; m != nil {
+		return m
+	}
+	m := &shapeMat{iss: sh.Iss, order: sh.Order}
+	signer := w.issuer
+	if sh.Iss != "direct" {
+		pi := w.preIssuer[sh.Iss]
+		if pi == nil {
+			o := pki.Opts{CN: "c05 precert signing " + sh.Iss, IsCA: true, OtherEKUs: pki.OIDEKUCTs()}
+			switch sh.Iss {
+			case "viaP":
+			case "viaPf": // authority key identifier with key id, issuer name and serial number
+				o.FullAKID = true
+			case "viaPm": // the CT usage listed after another one
+				o.EKUs = []x509.ExtKeyUsage{x509.ExtKeyUsageServerAuth}
+			default:
+				panic("unknown issuance " + sh.Iss)
+			}
+			pi = w.issuer.Issue(o)
+			w.preIssuer[sh.Iss] = pi
+		}
+		signer, m.viaPre = pi, true
+		m.tail, m.altTail = []*pki.Node{pi, w.issuer}, []*pki.Node{pi, w.altIssuer}
+	} else {
+		m.tail, m.altTail = []*pki.Node{w.issuer}, []*pki.Node{w.altIssuer}
+	}
+	order := sh.Order
+	if order == "std" {
+		order = ""
+	}
+	w.serial += 2
+	k0 := pki.NewKey("p256")
+	name := func(i int) string { return fmt.Sprintf("pre%d-%d.example", i, w.id) }
+	m.pre[0] = signer.Issue(pki.Opts{CN: name(0), DNS: []string{name(0)}, Poison: "ok", ExtOrder: order, Serial: w.serial, Key: k0})
+	m.pre[1] = signer.Issue(pki.Opts{CN: name(1), DNS: []string{name(1)}, Poison: "ok", ExtOrder: order})
+	m.pre[2] = signer.Issue(pki.Opts{CN: name(0), DNS: []string{"alt." + name(0)}, Poison: "ok", ExtOrder: order, Serial: w.serial, Key: k0})
+	w.shapes[key] = m
+	return m
 }
 
 // repoCert parses a certificate with the repository's x509 fork (that is how callers of ctutil get one).
@@ -177,8 +277,11 @@ func (w *world) repoChain(nodes []*pki.Node) []*ctx509.Certificate {
 	return out
 }
 
-func precertFields(f *fields, pre, issuer *pki.Node) {
-	e, err := ref.EntryForChain([][]byte{pre.DER, issuer.DER}, false)
+// precertFields: the entry an independent client derives from the chain (harness/ref: RFC 6962 3.2 on the verbatim
+// DER elements), and the chain itself.
+func precertFields(f *fields, m *shapeMat, pre *pki.Node, tail []*pki.Node) {
+	chain := append([]*pki.Node{pre}, tail...)
+	e, err := ref.EntryForChain(pki.DERs(chain), m.viaPre)
 	if err != nil || e.Type != ref.PrecertEntry {
 		panic(fmt.Sprintf("independent precert entry derivation failed: %v", err))
 	}
@@ -186,12 +289,15 @@ func precertFields(f *fields, pre, issuer *pki.Node) {
 	copy(f.ikh[:], e.IssuerKeyHash)
 	f.tbs = e.TBS
 	f.cert = nil
-	f.chain = []*pki.Node{pre, issuer}
+	f.chain, f.sm = chain, m
 }
 
 // baseline draws a valid object of the kind.  synthetic: the SCT entry is built so that both arms of
 // signed_entry have the same bytes and entry_type is the only thing telling them apart.
-func (w *world) baseline(kind string, synthetic bool) *fields {
+func (w *world) baseline(kind string, synthetic bool) *fields { return w.baselineShape(kind, synthetic, stdShape) }
+
+// baselineShape: the same with the precertificate chain in the given shape.
+func (w *world) baselineShape(kind string, synthetic bool, sh Shape) *fields {
 	rng := w.rng
 	f := &fields{kind: kind, ts: uint64(rng.Int63()), size: uint64(rng.Int63())}
 	rng.Read(f.root[:])
@@ -225,7 +331,8 @@ func (w *world) baseline(kind string, synthetic bool) *fields {
 		} else if kind == "SCTx509" {
 			f.etype, f.cert, f.chain = ref.X509Entry, w.leaf[0].DER, []*pki.Node{w.leaf[0]}
 		} else {
-			precertFields(f, w.pre[0], w.issuer)
+			m := w.shape(sh)
+			precertFields(f, m, m.pre[0], m.tail)
 		}
 	}
 	return f
@@ -264,6 +371,9 @@ func (w *world) mutateField(f *fields, field string) (*fields, error) {
 		flip(g.root[:])
 	case "extensions":
 		switch {
+		case rng.Intn(40) == 0: // the longest extensions that have an encoding
+			g.ext = make([]byte, 65535)
+			rng.Read(g.ext)
 		case len(g.ext) == 0:
 			g.ext = []byte{byte(rng.Intn(256))}
 		case rng.Intn(3) == 0:
@@ -299,13 +409,18 @@ func (w *world) mutateField(f *fields, field string) (*fields, error) {
 		}
 	case "tbs":
 		if f.chain != nil {
-			precertFields(g, w.pre[1], w.issuer)
+			// another precertificate of the same shape: altogether another one, or one that differs from the signed
+			// one in a single extension behind the authority key identifier
+			precertFields(g, f.sm, f.sm.pre[1+rng.Intn(2)], f.sm.tail)
+			if bytes.Equal(g.tbs, f.tbs) {
+				return nil, fmt.Errorf("neighbour precertificate has the same TBSCertificate")
+			}
 		} else {
 			flip(g.tbs)
 		}
 	case "issuerkeyhash":
 		if f.chain != nil {
-			precertFields(g, w.pre[0], w.altIssuer)
+			precertFields(g, f.sm, f.sm.pre[0], f.sm.altTail)
 			if !bytes.Equal(g.tbs, f.tbs) || g.ikh == f.ikh {
 				return nil, fmt.Errorf("alternative issuer does not isolate the issuer key hash")
 			}
@@ -314,6 +429,44 @@ func (w *world) mutateField(f *fields, field string) (*fields, error) {
 		}
 	default:
 		return nil, fmt.Errorf("unknown field %q", field)
+	}
+	return g, nil
+}
+
+// unserField puts a value outside the domain of its field into one signed field (clause Unencodable).
+func (w *world) unserField(f *fields, field string) (*fields, error) {
+	rng := w.rng
+	g := f.clone()
+	g.unser = field
+	switch field {
+	case "extensions": // CtExtensions <0..2^16-1>
+		n := []int{65536, 65536, 65537, 65536 + 1 + rng.Intn(4096), 1 << 17}[rng.Intn(5)]
+		g.ext = make([]byte, n)
+		rng.Read(g.ext)
+		if rng.Intn(2) == 0 && len(f.ext) > 0 {
+			copy(g.ext, f.ext) // the signed extensions with more behind them
+		}
+	case "cert": // ASN.1Cert <1..2^24-1>
+		if f.etype != ref.X509Entry {
+			return nil, fmt.Errorf("no certificate arm in %s", f.kind)
+		}
+		g.cert, g.chain = []byte{}, nil
+		if vhThorough() && rng.Intn(40) == 0 {
+			g.cert = make([]byte, 1<<24)
+		}
+	case "tbs": // TBSCertificate <1..2^24-1>
+		if f.etype != ref.PrecertEntry {
+			return nil, fmt.Errorf("no TBSCertificate arm in %s", f.kind)
+		}
+		g.tbs, g.chain = []byte{}, nil
+		if vhThorough() && rng.Intn(40) == 0 {
+			g.tbs = make([]byte, 1<<24)
+		}
+	case "entrytype": // enum { x509_entry(0), precert_entry(1), (65535) }
+		g.etype = []int{2, 3, 0x7fff, 0x8000, 0xffff}[rng.Intn(5)]
+		g.chain = nil
+	default:
+		return nil, fmt.Errorf("field %q is always encodable", field)
 	}
 	return g, nil
 }
@@ -342,13 +495,18 @@ type embedded struct {
 	tbs0 []byte // TBSCertificate without the SCT list = what the SCT signature covers
 	ikh  [32]byte
 	w    *world
+	// where the SCT list sits among the extensions: "std" (last), "poisonBeforeAki" (directly before the authority key
+	// identifier, the subject alternative name behind it), "poisonFirst" - the Orders of the specification
+	order string
 }
 
 // newEmbedded fixes a certificate (serial, key, names); the SCT list is filled in by final().
-func (w *world) newEmbedded() (*embedded, error) {
+func (w *world) newEmbedded() (*embedded, error) { return w.newEmbeddedOrder("std") }
+
+func (w *world) newEmbeddedOrder(order string) (*embedded, error) {
 	w.serial++
 	name := fmt.Sprintf("emb%d.example", w.serial&0xffff)
-	e := &embedded{w: w, opts: pki.Opts{CN: name, DNS: []string{name}, Serial: w.serial, Key: pki.NewKey("p256")}}
+	e := &embedded{w: w, order: order, opts: pki.Opts{CN: name, DNS: []string{name}, Serial: w.serial, Key: pki.NewKey("p256")}}
 	bare := w.issuer.Issue(e.opts)
 	p, err := ref.SplitCert(bare.DER)
 	if err != nil {
@@ -372,6 +530,35 @@ func (e *embedded) final(sct []byte) (*pki.Node, error) {
 	o := e.opts
 	o.Extra = []pkix.Extension{{Id: pki.OIDSCTList, Value: val}}
 	n := e.w.issuer.Issue(o)
+	if e.order != "std" && e.order != "" {
+		// issue again with every extension given explicitly, the SCT list moved (an extension named in the extra
+		// extensions replaces the one the encoder would generate; all others keep their bytes)
+		exts := append([]pkix.Extension{}, n.Cert.Extensions...)
+		si, ai := -1, -1
+		for i, x := range exts {
+			if x.Id.Equal(pki.OIDSCTList) {
+				si = i
+			}
+			if x.Id.Equal(asn1.ObjectIdentifier{2, 5, 29, 35}) {
+				ai = i
+			}
+		}
+		if si < 0 || ai < 0 || ai > si {
+			return nil, fmt.Errorf("harness: no SCT list behind an authority key identifier to move")
+		}
+		list := exts[si]
+		exts = append(exts[:si:si], exts[si+1:]...)
+		at := 0
+		if e.order == "poisonBeforeAki" {
+			at = ai
+		}
+		exts = append(exts[:at:at], append([]pkix.Extension{list}, exts[at:]...)...)
+		o.Extra = exts
+		n = e.w.issuer.Issue(o)
+		if len(n.Cert.Extensions) != len(exts) || !n.Cert.Extensions[at].Id.Equal(pki.OIDSCTList) {
+			return nil, fmt.Errorf("harness: the SCT list did not move")
+		}
+	}
 	got, err := withoutSCTList(n.DER)
 	if err != nil {
 		return nil, err
